@@ -122,7 +122,7 @@ def run(run):
     tier_q = run.tier == "quick"
     g = stgen.G(run.rng)
     base, variants = [], []
-    for _ in range(250 if tier_q else 4000):
+    for _ in range(250 if tier_q else 12000):
         t, tree = g.statement()
         is_dml = t.lstrip().upper().startswith(DML)
         d = run.rng.choice(["MYSQL", "DEFAULT", "HIVE"])
@@ -131,7 +131,7 @@ def run(run):
             variants.append((len(base) - 1, d, vary(run.rng, t, is_dml)))
     # expressions: one specification expression, several choice streams (spellings, letter case, redundant parentheses)
     ebase = []
-    for _ in range(150 if tier_q else 2500):
+    for _ in range(150 if tier_q else 8000):
         e = exprgen.gen(run.rng, run.rng.choice([1, 2, 2, 3]))
         ebase.append(e)
     em = exprgen.emit_all([(e, False, []) for e in ebase] + [(e, False, [run.rng.randint(0, 11) for _ in range(40)]) for e in ebase for _ in range(2)])
